@@ -79,7 +79,7 @@ def run(check: Check, repo: Repo, tier: str) -> None:
     TW.suppressed_attr(check, repo, tmods)
     check.floor("TYPE-WITNESS", 100, "modules type-checked")
     check.floor("SUPPRESSED-ATTR", 12, "attribute accesses silenced by a type: ignore comment")
-    check.floor("NEXT-TOTAL", 4, "next() searches on the validation / coercion path")
+    check.floor("NEXT-TOTAL", 2, "next() searches on the validation / coercion path")
     M.subsumption(check, repo)
     M.memo_pair(check, repo)
     M.cycle_guard(check, repo)
